@@ -243,6 +243,90 @@ def request_timing(sl):
             core.s_and(outer.request_start == core.s_min(*[s for _, s, _ in wire]), outer.request_end == core.s_max(*[e for _, _, e in wire])))
 
 
+def composite_streams(sl):
+    """the real runner.Composite (run_stream, RequestTiming, CompositeContext) on a request structure with two concurrent streams followed
+    by an operation; sub-runners are gated stubs, the order of their wire events is an enumeration decision, timestamps are symbolic"""
+    clock = Clock()
+    c = Client()
+    wire = {}
+    names = ["a", "b", "after"]
+    gates = {}
+
+    class Sub:
+        def __init__(self, op):
+            self.op = op
+
+        async def __call__(self, es_, params):
+            n = params["name"]
+            g = gates[n]
+            log.append(("enter", n))
+            await g[0].wait()
+            es_["default"].on_request_start()
+            s = clock.now
+            await g[1].wait()
+            es_["default"].on_request_end()
+            wire[n] = (s, clock.now)
+            log.append(("done", n))
+            return {"weight": 1, "unit": "ops", "success": True}
+
+        async def __aenter__(self):
+            return self
+
+        async def __aexit__(self, *a):
+            return False
+
+    structure = [{"stream": [{"name": "a", "operation-type": "search"}]}, {"stream": [{"name": "b", "operation-type": "raw-request"}]},
+                 {"name": "after", "operation-type": "search"}]
+    order, log = [], []
+
+    async def main():
+        for n in names:
+            gates[n] = [asyncio.Event(), asyncio.Event()]
+        with c.new_request_context() as outer:
+            task = asyncio.create_task(runner.Composite()(c, {"requests": structure, "max-connections": sl["max_connections"]}))
+            await _settle()
+            pending = [("a", 0), ("b", 0)]
+            released_after = False
+            while pending:
+                j = choose(len(pending), "next event")
+                n, g = pending.pop(j)
+                order.append((n, ("start", "end")[g]))
+                gates[n][g].set()
+                await _settle()
+                if g == 0:
+                    pending.append((n, 1))
+                    pending.sort()
+                if not pending and not released_after:
+                    released_after = True
+                    pending = [("after", 0)]
+            result = await task
+        return outer, result
+
+    with shadowed(client_context, (), extra={"time": clock.time_ns()}), shadowed(runner, (), extra={"time": clock.time_ns(), "runner_for": Sub}):
+        try:
+            outer, result = _run(main)
+        except Exception as e:  # noqa: BLE001
+            core.note("composite raised", repr(e))
+            core.note("event order", order)
+            observe("the composite operation completes for every interleaving of its streams", False)
+            return
+    core.note("event order", order)
+    core.trace("timings", len(result["dependent_timing"]))
+    dts = {d["dependent_timing"]["operation"]: d for d in result["dependent_timing"] if d}
+    observe("one dependent timing per sub-request", len(result["dependent_timing"]) == 3 and sorted(dts) == sorted(names))
+    for n in names:
+        if n in dts:
+            dt = dts[n]["dependent_timing"]
+            observe("sub-request '%s' timing covers exactly its own wire request" % n,
+                    core.s_and(dt["request_start"] == wire[n][0], dt["request_end"] == wire[n][1], dt["service_time"] == wire[n][1] - wire[n][0]))
+    observe("the operation after the streams is issued only after both streams finished",
+            log.index(("enter", "after")) > max(log.index(("done", "a")), log.index(("done", "b"))))
+    if sl["max_connections"] == 1:
+        observe("max-connections 1: the streams' requests do not overlap", log.index(("done", log[0][1])) < log.index(("enter", "b" if log[0][1] == "a" else "a")))
+    observe("the logical request spans all sub-requests", core.s_and(outer.request_start == core.s_min(*[wire[n][0] for n in names]),
+                                                                   outer.request_end == core.s_max(*[wire[n][1] for n in names])))
+
+
 READS = [client_context.RequestContextManager.__enter__, client_context.RequestContextManager.__exit__,
          client_context.RequestContextHolder.update_request_start, client_context.RequestContextHolder.update_request_end,
          client_context.RequestContextHolder.on_request_start, client_context.RequestContextHolder.on_request_end,
@@ -252,6 +336,11 @@ STUBS = ["clock: time.perf_counter inside esrally.client.context / time.time ins
          "wire requests are calls of on_request_start/on_request_end as the transport makes them"]
 
 HARNESSES = [
+    Harness("composite_streams", composite_streams, "symbolic", lambda tier: [{"max_connections": m} for m in (1, 2, 16)],
+            reads=READS + [runner.Composite.__call__, runner.Composite.run_stream], stubs=STUBS + ["runner_for inside esrally.driver.runner returns gated stub runners"],
+            bounds={"structure": "two concurrent single-operation streams followed by one operation", "max-connections": "1, 2, 16",
+                    "interleavings": "every order of the streams' start/end events (explicit enumeration); timestamps symbolic"},
+            doc="composite operation: per-stream timings, ordering of dependent operations, outer span"),
     Harness("concurrent_children", concurrent_children, "symbolic",
             lambda tier: [{"children": 2}, {"children": 2, "failures": True}] + ([{"children": 3, "_w": 9}] if tier == "thorough" else []),
             reads=READS, stubs=STUBS, bounds={"concurrent sub-requests": "2 quick / 3 thorough", "interleavings": "all orders of start/end/exit events (20 / 1680)",
